@@ -26,11 +26,12 @@ theorem C01_replay_faithful (ao : AliasOracle) (w : Key → RVal) (cfg cfg' : Op
     (hF : p.Faithful w) (hN : p.NoPlayData)
     (hres : (runOperation ao cfg s p).2 = .out o) (hord : ∀ t, o = .exc t → isFramework t = false)
     (hsaved : (runOperation ao cfg s p).1.store = rec :: s.store)
-    (hidle' : s'.Idle) (hfetch : fetch s'.store id = some rec') (hrt : rec'.data = rec.data) :
+    (hidle' : s'.Idle) (hfetch : fetch s'.store id = some rec') (hrt : rec'.data = rec.data)
+    (hdur : rec'.md.hasDuration = true) :
     (runPlay ao cfg' s' id p).2 = .played (extractOutputs rec'.data).reverse (extractOutputs rec'.data) ∧
     (runPlay ao cfg' s' id p).1.journal = s'.journal ∧
     (extractOutputs rec'.data).head? = some (.outArgs opAlias 1, .sent [opOutVal o] []) :=
-  replay_faithful ao w cfg cfg' s s' p rec rec' o id hidle hen hsk hF hN hres hord hsaved hidle' hfetch hrt
+  replay_faithful ao w cfg cfg' s s' p rec rec' o id hidle hen hsk hF hN hres hord hsaved hidle' hfetch hrt hdur
 
 /-- **Every intercepted call is handed, during replay, the outcome it had while recording** — stated on the program:
 running `p` against the final data of its own record run reaches the same result `o` (the continuation after each call
